@@ -19,7 +19,7 @@ RUNS = {"quick": 4000, "thorough": 100000}
 CHUNK = {"quick": 40, "thorough": 200}
 PROBES = ["body_with_crlfcrlf", "body_with_nul", "body_large", "param_binary", "param_plus_encoding", "header_value_colon_space",
           "header_value_high_bytes", "no_headers", "path_with_semicolon", "status_edge", "malformed_rejected",
-          "many_params", "session_population", "empty_body"]
+          "many_params", "session_population", "empty_body", "reparse_after_history"]
 RULE = ("seeded plans: 85% shaped messages - 8-20 messages per plan: requests (token methods, ASCII paths incl. ';', "
         "parameter maps with arbitrary key/value bytes and non-empty values percent-encoded with %20 or '+', header maps "
         "with values containing ': ' and high bytes, bodies with CRLFCRLF / NULs / up to 64 KiB), responses (status "
@@ -46,11 +46,15 @@ def _bytes(rng, lo, hi):
     return bytes(rng.getrandbits(8) for _ in range(rng.randint(lo, hi)))
 
 
+_COMMON = ["Content-Type", "content-type", "CONTENT-TYPE", "Cookie", "cookie", "Host", "host", "X-Id", "x-id", "X-ID"]
+
+
 def _headers(rng):
     hs = []
     seen = set()
     for _ in range(rng.choice([0, 1, 2, 3, 5, 8])):
-        k = _w(rng, 1, 12)
+        # the same header names come back across messages of one plan in different spellings
+        k = rng.choice(_COMMON) if rng.random() < 0.4 else _w(rng, 1, 12)
         if k.lower() in seen:
             continue
         seen.add(k.lower())
@@ -122,6 +126,7 @@ def execute(plan: dict) -> Result:
     from dissect.cobaltstrike.c2 import HttpRequest, HttpResponse, parse_raw_http
     res = Result()
     res.cases = len(plan["messages"])
+    earlier = []          # (wire, expected parts) of requests parsed earlier in this history
     for mi, m in enumerate(plan["messages"]):
         headers = [(unhx(k), unhx(v)) for k, v in m["headers"]]
         body = unhx(m["body"])
@@ -174,6 +179,12 @@ def execute(plan: dict) -> Result:
                 diffs.append("headers" + ("(empty)" if not headers else ""))
             if p.body != body:
                 diffs.append("body")
+            if not diffs:
+                earlier.append((wire, method, path, dict(params), dict(headers), body))
+                # the caller owns the parsed object: consumers such as HttpDataTransform.transform(request=parsed) add
+                # parameters and headers to it in place. That must not influence any later parse.
+                p.params[b"__added_by_consumer"] = b"1"
+                p.headers[b"__added_by_consumer"] = b"1"
             if diffs:
                 res.violate(("C16", "request_parts_differ", ",".join(diffs)),
                             f"parse_raw_http({wire[:300]!r}...) -> method={p.method!r} uri={p.uri!r} params={dict(p.params)!r:.200} "
@@ -224,6 +235,19 @@ def execute(plan: dict) -> Result:
                 res.log.log("malformed_rejected", mi, line)
             except Exception as e:
                 res.violate(("C16", "malformed_wrong_exception", type(e).__name__), f"start line {line!r} raised {e!r} instead of ValueError")
+    # ---- history: every request parsed earlier parses to the same parts again (no state shared between parses)
+    for wire, method, path, params, headers, body in earlier:
+        try:
+            p = parse_raw_http(wire)
+            same = p.method == method and p.uri == path and dict(p.params) == params and dict(p.headers) == headers and p.body == body
+        except Exception:
+            same = False
+        res.probes["reparse_after_history"] += 1
+        if not same:
+            res.violate(("C16", "reparse_differs_after_history"),
+                        f"re-parsing {wire[:200]!r} after other messages were parsed (and their parsed objects modified by their "
+                        f"owner) gives different parts: params={dict(p.params)!r:.150} headers={dict(p.headers)!r:.200}")
+            break
     return res
 
 
